@@ -8,7 +8,7 @@ from .. import gen, impl, oracle, ser, stream
 
 ID = "C08"
 LEVEL = "proof"
-PROPS_MODULE = "SymmModel.Props.C08All"
+PROPS_MODULE = "SymmModel.Props.C08All2"
 THEOREMS = [
     "SymmModel.C08.locateAll_total",
     "SymmModel.C08.toDenseA_get",
@@ -61,10 +61,40 @@ THEOREMS = [
     "SymmModel.C08.binopV_ok",
     "SymmModel.C08.binopV_toDense",
     "SymmModel.C08.binopV_strict_error_iff",
-    "SymmModel.C08.reduceV_toDense"
+    "SymmModel.C08.reduceV_toDense",
+    "SymmModel.C08.expandDims_charge_indices",
+    "SymmModel.C08.expandDims_charge_sectors",
+    "SymmModel.C08.expandDims_charge_elem",
+    "SymmModel.C08.expandDims_charge_toDense",
+    "SymmModel.C08.expandDims_toDense_indep",
+    "SymmModel.C08.expandDims_charge_valid_iff",
+    "SymmModel.C08.expandDims_charge_valid",
+    "SymmModel.C08.mapA_elem_exact",
+    "SymmModel.C08.mapA_toDense_exact",
+    "SymmModel.C08.mapA_toDense",
+    "SymmModel.C08.mapA_toDense_iff",
+    "SymmModel.C08.negA_eq_mapA",
+    "SymmModel.C08.smulA_eq_mapA",
+    "SymmModel.C08.sdivA_eq_mapA",
+    "SymmModel.C08.mapA_succ_counterexample",
+    "SymmModel.C08.x_hasMissing",
+    "SymmModel.C08.toDense_entries",
+    "SymmModel.C08.locateAll_onto",
+    "SymmModel.C08.reduceA_spec",
+    "SymmModel.C08.isLub_unique",
+    "SymmModel.C08.reduce_toDense",
+    "SymmModel.C08.reduce_toDense_of_zero_le",
+    "SymmModel.C08.hasMissing_iff",
+    "SymmModel.C08.max_counterexample",
+    "SymmModel.C08.trace_toDense",
+    "SymmModel.C08.fuse_toDense_partial",
+    "SymmModel.C08.toDense_sameContent",
+    "SymmModel.C08.fuse_toDense_content",
+    "SymmModel.C08.unfuse_toDense_content",
+    "SymmModel.C08.reshape_toDense_content"
 ]
-LEAN_FILES = ["SymmModel.Props.C08", "SymmModel.Proofs.DenseLemmas", "SymmModel.Props.C08b", "SymmModel.Props.C08All", "SymmModel.Proofs.DenseMore"]
-PLANNED = ["expand_dims with an explicit charge (value view independent of it", "charge update not treated)"]
+LEAN_FILES = ["SymmModel.Props.C08", "SymmModel.Proofs.DenseLemmas", "SymmModel.Props.C08b", "SymmModel.Props.C08All", "SymmModel.Proofs.DenseMore", "SymmModel.Props.C08c", "SymmModel.Props.C08All2", "SymmModel.Proofs.Dense3a", "SymmModel.Proofs.Dense3b", "SymmModel.Proofs.Dense3d"]
+PLANNED = ["fuse: full dense form (positions that are not images of stored positions hold 0", "stored part + content proved)"]
 RULE = ("every listed operation on random abelian arrays (all symmetries, static/generic, sparse, real/complex) "
         "through method / symmray function / autoray dispatch; binary operations on operands with different stored "
         "sectors; diagonal vectors missing charges; BlockVector arithmetic and every exported elementwise function. "
